@@ -375,7 +375,9 @@ func (r *Runner) stmtSync(ctx context.Context, st *syntax.Stmt) {
 		r.noErrExit = oldNoErrExit
 	}
 	if st.Negated {
-		if r.exit.ok() {
+		if r.exit.returning || r.exit.exiting {
+			// A return or exit on its way out keeps its status.
+		} else if r.exit.ok() {
 			r.exit.code = 1
 		} else {
 			r.exit.clear()
